@@ -17,7 +17,9 @@ import (
 )
 
 // character alphabet for strings: every escaping-relevant character
-var c06Chars = []string{"a", `"`, `\`, "n", "\n", "\t", "\r", "¬", "ʞ", "{", "}", ";", "$", "(", " ", "😀", ":", "\ufeff", "\x00"}
+var c06Chars = []string{"a", `"`, `\`, "n", "\n", "\t", "\r", "¬", "ʞ", "{", "}", ";", "$", "(", " ", "😀", ":", "\ufeff", "\x00",
+	// the tails of escape sequences other languages know (after a backslash): \t \r \uXXXX \xXX \UXXXXXXXX \101
+	"t", "r", "u00e9", "x41", "U0001F600", "101"}
 
 // identifier characters (scanner's isIdentRune alphabet, reduced)
 var c06IdentChars = []string{"a", "b", "-", "1", "/", "<", "=", "ü", "*", "+", "?", "!", "_", ">", "$", "ʞ"}
@@ -208,7 +210,7 @@ func init() {
 		}
 		strFam := &vf.Family{
 			Name:   "strings",
-			Bounds: fmt.Sprintf("every string of <=3 (quick) / <=4 (thorough) characters over %d escaping-relevant characters (quote, backslash, n, LF, TAB, CR, raw quote, U+029E, braces, ;, $, (, space, emoji, colon, BOM, NUL), not starting with U+029E, in %d contexts (bare, list, vector, map value, map key, set member, nested); plus JSON-looking strings", len(c06Chars), len(c06Contexts)),
+			Bounds: fmt.Sprintf("every string of <=3 (quick) / <=4 (thorough) characters over %d escaping-relevant characters (quote, backslash, n, LF, TAB, CR, raw quote, U+029E, braces, ;, $, (, space, emoji, colon, BOM, NUL, and the tails of the escape sequences t, r, uXXXX, xXX, UXXXXXXXX, octal), not starting with U+029E, in %d contexts (bare, list, vector, map value, map key, set member, nested); plus JSON-looking strings", len(c06Chars), len(c06Contexts)),
 			Setup:  setup,
 			N:      func(t string) int64 { tier = t; return seqSpace{len(c06Chars), strLen()}.size() * nCtx },
 			Describe: func(i int64) string { s, c := strOf(i); return strconv.Quote(s) + " " + c06Contexts[c].name },
